@@ -165,7 +165,7 @@ func genMatcher(r *ref.R, depth int) *mspec {
 	}
 	switch {
 	case x < 2:
-		return &mspec{kind: "hosts", domains: ref.Pick(r, [][]string{{"a.com"}, {"b.com", "{sub}.example.com"}, {"a.com", "b.com"}, {"{sub}.example.com"}})}
+		return &mspec{kind: "hosts", domains: ref.Pick(r, [][]string{{"a.com"}, {"b.com", "{sub}.example.com"}, {"a.com", "b.com"}, {"{sub}.example.com"}, {"::1", "b.com"}, {"fe80::1", "::1"}})}
 	case x < 4:
 		return &mspec{kind: "pathver", param: ref.Pick(r, []string{"pv", "", "ver"}), versions: ref.Pick(r, [][]string{{"v1"}, {"v2", "v1"}, {"v1/v1"}, {"v2"}, {"v1", "v2", "v10", "v11"}, {"v1", "v1beta", "v2"}, {"v10", "v1"}})}
 	case x < 5:
@@ -190,11 +190,41 @@ type grouter struct {
 }
 
 var c13Patterns = []string{"/x", "/{p}/y", "/v1/x", "/v1/{p}/y"}
-var c13Hosts = []string{"a.com", "b.com", "x.example.com", "zz.org", "A.com:80"}
+var c13Hosts = []string{"a.com", "b.com", "x.example.com", "zz.org", "A.com:80", "[::1]", "[::1]:8080", "[FE80::1]", "b.com:"}
 var c13Paths = []string{"/x", "/v1/x", "/v2/x", "/v1/v1/x", "/7/y", "/v1/7/y", "/v2/v1/x", "/nothing", "/v1", "/v1/", "/v10/x", "/v11/7/y", "/v1beta/x", "/v10/v1/x", "/v111/x"}
 var c13Accepts = []string{"", "application/json;version=1", "text/html;version=2", "a/b;version=3"}
 
+// c13RouterKeepsItsMiddlewares: "exactly as that router alone would serve" includes what the router wraps its routes
+// with. Routers of a group that already has middlewares, Use on each router and on the group, then a route registered on
+// the first router and requested through the group.
+func c13RouterKeepsItsMiddlewares(c *Ctx) {
+	env := mon.NewEnv()
+	env.RecordMW = false
+	g := env.NewGroup()
+	g.Use(env.MW("G"))
+	r1 := g.New("api", mux.NewPathVersion("", "api"))
+	r2 := g.New("web", mux.NewPathVersion("", "web"))
+	r1.Use(env.MW("api-auth"))
+	r2.Use(env.MW("web-log"))
+	want := "api-auth>G"
+	if c.Case%2 == 1 {
+		g.Use(env.MW("G2"))
+		want = "G2>api-auth>G"
+	}
+	r1.Handle("/p/{id}", env.NewHnd(mon.KRoute, "/p/{id}"), nil, "GET")
+	o, tr := mon.DoTrace(g, mon.Req{Method: "GET", Path: "/api/p/7"})
+	c.Eval()
+	c.Class("router_middlewares_through_group")
+	if got := strings.Join(tr, ">"); o.Panicked || o.RouterName != "api" || got != want {
+		c.Violate(fmt.Sprintf("a route of router %q, requested through the group, ran the middlewares %q; the router alone wraps it with %q (outermost first)", "api", got, want), map[string]any{"observed": obsBrief(o)})
+	}
+}
+
 func runC13(c *Ctx) {
+	c13RouterKeepsItsMiddlewares(c)
+	if c.Violated() {
+		return
+	}
 	r := c.R
 	env := mon.NewEnv()
 	g := env.NewGroup()
